@@ -80,6 +80,10 @@ func vReclaimed(e *vEnv, tag string, poolFree int) {
 // H_C05_end: one session through establishment (accepted or rejected at any
 // exit), an optional modification, and each of the four ways a session ends.
 func H_C05_end() {
+	// time is not this harness's subject: sessions live for a millisecond (the
+	// shortest-lived sessions are the adversarial case for anything derived from
+	// a session's duration)
+	vConcreteClock(1000000)
 	alloc := vBool("ueip_alloc")
 	e := vNewEnv(alloc)
 	e.pc.maxRetries = 1
@@ -130,8 +134,18 @@ func H_C05_end() {
 		d, ok := e.vLastReply().(*message.SessionDeletionResponse)
 		vAssert("del-answered", ok)
 		if vCauseOf(d.Cause) != ie.CauseRequestAccepted {
-			// the datapath refused the delete: the session is still there; nothing to assert
+			// the datapath refused the delete: the session lives on and keeps what it holds
 			vCover("del-refused")
+			vAssert("del-refused:session-still-stored", len(e.pc.store.GetAllSessions()) == 1)
+			if alloc && pdrs[0].ueChoose {
+				vAssert("del-refused:session-keeps-its-ue-address", e.u.ippool.holds(up))
+				vAssert("del-refused:address-not-handed-back", len(e.u.ippool.freePool) == poolFree-1)
+			}
+			for _, p := range e.pc.store.GetAllSessions()[0].pdrs {
+				if p.UPAllocateFteid {
+					vAssert("del-refused:chosen-teid-still-marked", e.u.fteidGenerator.IsAllocated(p.tunnelTEID))
+				}
+			}
 			return
 		}
 	case 1:
@@ -154,6 +168,7 @@ func H_C05_end() {
 // H_C05_cycles: more attach/detach cycles than the smallest pool has
 // elements: none may be refused for lack of resources.
 func H_C05_cycles() {
+	vConcreteClock(1000000)
 	e := vNewEnv(true)
 	e.u.ippool, _ = NewIPPool("10.250.0.0/30") // 2 addresses
 	e.pc.rng = rand.New(&vRandSource{nonzero: true})
